@@ -284,13 +284,25 @@ def run(chk):
                     replay=('c05', lambda m: {'what': 'eof_tail', 'c': float(m.get('conc', 0.0))}))
             continue
         val = path.value
-        if isinstance(val, F64):
-            cl = ir.band(ir.bnot(val.isnan().n), ir.bnot(val.isinf().n))
+        rp_e = ('c05', lambda m: {'what': 'eof_tail', 'c': float(m.get('conc', 0.0))})
+        fb = [{'what': 'eof_tail', 'c': c_} for c_ in (1e-8, 1.26e-8, 5e-9, 2e-8, 1e-9)]
+        if not isinstance(val, F64):
+            chk.add(f'get_eof_2qubit: finite for every concurrence value in [0,1] (binary64, path {pi})', pre + path.pc + path.facts, ir.bconst(bool(np.isfinite(val))), key='get_eof_2qubit NaN', replay=rp_e)
+            continue
+        # monolithic query (fast when there IS a counterexample, usually 'unknown' when there is none) ...
+        cl = ir.band(ir.bnot(val.isnan().n), ir.bnot(val.isinf().n))
+        mono = chk.add(f'get_eof_2qubit: finite (no NaN) for every concurrence value in [0,1] (binary64, path {pi}) [monolithic]', pre + path.pc + path.facts, cl, key='get_eof_2qubit NaN',
+                       replay=rp_e, fallback_payloads=fb, kind='probe_forall')
+        # ... and the same claim by solver-checked one-operation interval lemmas (composition bounds the result)
+        from symnp import fprange
+        lemmas, root_iv = fprange.range_lemmas(val.n, {'conc': (0.0, 1.0)}, path.pc, path.ctx.aux, f'eof{pi}')
+        if root_iv is None:
+            chk.add(f'get_eof_2qubit: result bounded by interval lemmas (path {pi})', [], ir.FALSE, key='get_eof_2qubit NaN', replay=rp_e, fallback_payloads=fb, kind='probe_forall')
+            mono.meta['soft'] = False      # no interval proof on this path: the monolithic query has to decide
         else:
-            cl = ir.bconst(bool(np.isfinite(val)))
-        chk.add(f'get_eof_2qubit: finite (no NaN) for every concurrence value in [0,1] (binary64, path {pi})', pre + path.pc + path.facts, cl, key='get_eof_2qubit NaN',
-                replay=('c05', lambda m: {'what': 'eof_tail', 'c': float(m.get('conc', 0.0))}),
-                fallback_payloads=[{'what': 'eof_tail', 'c': c_} for c_ in (1e-8, 1.26e-8, 5e-9, 2e-8, 1e-9)])
+            for lab, asm, clm in lemmas:
+                chk.add(f'get_eof_2qubit tail (path {pi}) lemma: {lab}', asm, clm, key='get_eof_2qubit NaN', replay=rp_e, fallback_payloads=fb)
+            chk.samples.append({'get_eof_2qubit_path': pi, 'result_interval_proved': list(root_iv), 'lemmas': len(lemmas)})
         chk.notes_from(path)
     chk.stub('get_concurrence_2qubit -> any binary64 in [0,1]; libm log/sqrt per the C contract (fresh values)')
     # ---- 6. get_concurrence_pure vanishes on product vectors (algebraic) and is below sqrt(2(1-1/d))
